@@ -54,11 +54,15 @@ def panel_kwargs(pd, explicit_model=True, ctor=False):
     return kw
 
 
-def build_panel(pd, explicit_model=True, ctor=False):
+def build_panel(pd, explicit_model=True, ctor=False, both=False):
     """pd in JSON shape (rationals as limb pairs) -> compmech Panel; ctor=True passes everything through the
-    constructor (keyword arguments) instead of setting attributes afterwards"""
+    constructor (keyword arguments) instead of setting attributes afterwards; both=True also supplies a scalar ply
+    thickness / material that differs from the per-ply lists (the lists are what the panel is made of)"""
     from compmech.panel import Panel
     kw = panel_kwargs(pd, explicit_model, ctor)
+    if both and "plyts" in kw:
+        kw["plyt"] = 3. * kw["plyts"][0] + 0.5
+        kw["laminaprop"] = (7., 7., 0.25)
     if ctor:
         return Panel(**kw)
     p = Panel()
@@ -310,7 +314,7 @@ def observe(pd, req, fresh_model=True):
             # directly after the change, without the stiffness call that would refresh every derived attribute
             req = dict(req, nok0=True)
     else:
-        p = build_panel(pd, explicit_model=fresh_model, ctor=bool(req.get("ctor")))
+        p = build_panel(pd, explicit_model=fresh_model, ctor=bool(req.get("ctor")), both=bool(req.get("both")))
     if req.get("nok0"):
         try:
             return execute(p, pd, req)
@@ -405,6 +409,15 @@ def observe_field(p, pd, req):
         p.calc_k0(silent=True)            # documented order (derives model, laminate, F, r, alpharad)
     c = np.array([float(fr(v)) for v in req["c"]])
     c0 = c.copy()
+    cform = req.get("cform", 0) % 3
+    if cform == 1:                      # strided view into a larger buffer
+        big = np.full(2 * len(c) + 1, 7.5)
+        big[::2][:len(c)] = c
+        c = big[::2][:len(c)]
+    elif cform == 2:                    # a column of a C-ordered matrix (how eigenvector sets are stored)
+        mat = np.full((len(c), 3), -2.25)
+        mat[:, 1] = c
+        c = mat[:, 1]
     xs = np.array([float(fr(pt[0])) for pt in req["pts"]])
     ys = np.array([float(fr(pt[1])) for pt in req["pts"]])
     NL = bool(req.get("NL", False))
@@ -592,7 +605,7 @@ def well_posed(pd):
 def jreq(r):
     out = dict(q=r["q"], size=r.get("size", 0), row0=r.get("row0", 0), col0=r.get("col0", 0))
     for k in ("N", "flow", "beta", "gamma", "aeromu", "c", "pts", "NL", "forces", "forcesInc", "inc", "cores", "num", "extra", "table",
-              "mach", "root", "rho", "V", "ainf", "via", "k0first", "taper", "route", "ctor", "nofin", "sweep", "dflt", "vialb", "rows", "pre", "nok0", "lbstudy", "tiles"):
+              "mach", "root", "rho", "V", "ainf", "via", "k0first", "taper", "route", "ctor", "nofin", "sweep", "dflt", "vialb", "rows", "pre", "nok0", "lbstudy", "tiles", "both", "cform"):
         if k in r:
             out[k] = r[k]
     return out
@@ -858,6 +871,10 @@ def run_prop(prop, qs, tier, seed, build, nrand_quick=40, nrand_thorough=600, wh
         if k < len(pairs):
             if k % 3 == 1:
                 r["ctor"] = True
+            if k % 5 == 2 and not r.get("sweep"):
+                r["both"] = True            # scalar plyt / laminaprop given next to the per-ply lists
+            if r["q"] in ("uvw", "strain", "stress"):
+                r["cform"] = k % 3
             if r["q"] in ("fext", "static"):
                 r["rows"] = ("list", "ndarray", "tuple")[k % 3]
                 if k % 2 == 0:
